@@ -1519,15 +1519,26 @@ func (in *Interp) rangeNext(fr *frame, x *ssa.Next, itv Value) Value {
 		return TupleV{P.True, P.Const(64, uint64(pos)), P.Const(32, uint64(uint32(r)))}
 	}
 	if !b.IsConst() {
-		// ASCII only: a feasible byte >= 0x80 is outside the encoding
-		k := in.Ex.Decide(2, func(k int) *Term {
-			if k == 0 {
-				return P.Ule(P.Const(8, 0x80), b)
+		// Encoded: ASCII bytes, and bytes that can never start a UTF-8 sequence (0x80..0xC1 and
+		// 0xF5..0xFF: continuation bytes, overlong leads, leads beyond U+10FFFF), which Go decodes as
+		// (utf8.RuneError, width 1) whatever follows. A feasible valid lead byte 0xC2..0xF4 is outside
+		// the encoding (its decoding depends on the following symbolic bytes).
+		// (the not-encodable alternative is explored last, so that what can be decided is decided first)
+		k := in.Ex.Decide(3, func(k int) *Term {
+			switch k {
+			case 0:
+				return P.Ult(b, P.Const(8, 0x80))
+			case 1:
+				return P.And(P.Ule(P.Const(8, 0x80), b), P.Or(P.Ult(b, P.Const(8, 0xC2)), P.Ult(P.Const(8, 0xF4), b)))
 			}
-			return P.Ult(b, P.Const(8, 0x80))
+			return P.And(P.Ule(P.Const(8, 0xC2), b), P.Ule(b, P.Const(8, 0xF4)))
 		}, "UTF-8 decoding of a symbolic byte in "+fr.fn.String())
-		if k == 0 {
-			panic(&abort{abNotEncodable, "range over string: symbolic byte may be >= 0x80 (only ASCII is encoded)"})
+		if k == 2 {
+			panic(&abort{abNotEncodable, "range over string: symbolic byte may be a valid UTF-8 lead byte (only ASCII and never-lead bytes are encoded)"})
+		}
+		if k == 1 {
+			it.pos++
+			return TupleV{P.True, P.Const(64, uint64(pos)), P.Const(32, uint64(utf8.RuneError))}
 		}
 	}
 	it.pos++
